@@ -16,7 +16,7 @@ CONSTANTS
   SendGate = "configured"
   TTLPos = TRUE
   D = 2
-  MaxTime = 3
+  MaxTime = 4
   MaxChanges = 1
   MaxUpdates = 0
   MaxCalls = 2
@@ -24,7 +24,7 @@ CONSTANTS
   ListenOwns = TRUE
   ResubRace = TRUE
   GenCheck = TRUE
-  ColdBump = TRUE
+  ColdBump = FALSE
   ModernUnsub = FALSE
   ForeignUnsub = FALSE
   Listeners = {}
@@ -35,9 +35,9 @@ CONSTANTS
   GateNames = {"put"}
   ClientFirst = FALSE
   MinSteps = 1
-  MaxSteps = 7
+  MaxSteps = 9
   Bias = FALSE
   Script <- ScriptNone
-  GenOps = {"change", "tchange", "updated", "list", "tick", "hold", "release"}
-INVARIANTS Export
+  GenOps = {"change", "list", "expire", "tick", "hold", "release"}
+INVARIANTS LeadFresh
 CHECK_DEADLOCK FALSE
